@@ -161,7 +161,7 @@ def main():
             "obligations": obligations, "discharged": discharged,
             "checker_cmd": "cd /verif/lean && lake build %s && lake env lean .lake/audit/%s_audit.lean  (#print axioms on every theorem; thorough: lake env leanchecker %s)" % (lean_module, prop, lean_module),
             "trusted_base": ["Lean 4.33 kernel", "axioms: propext, Classical.choice, Quot.sound only (audited this run)", "hand-written model tied to /repo by the differential correspondence below", "harness/ (Rust), vlib/ + check.py (Python)"] + list(getattr(mod, "TRUSTED", [])),
-            "theorems": ax_details,
+            "theorems": {k: ",".join(v) for k, v in ax_details.items()},
             "evaluations": evaluations, "distinct_nontrivial": len(distinct),
             "rule": getattr(mod, "RULE", ""),
             "samples": samples,
@@ -175,7 +175,7 @@ def main():
         "wall_s": round(wall, 2),
         "violations": 0 if violation is None else 1,
     }
-    if not a.replay:
+    if not a.replay and not a.skip_lean:
         os.makedirs(os.path.join(C.VERIF, "evidence"), exist_ok=True)
         json.dump(ev, open(os.path.join(C.VERIF, "evidence", prop + ".json"), "w"), indent=1)
 
